@@ -47,6 +47,7 @@ def check(repo: Repo, rep: Report) -> None:
         "not measured.")
     rep.rule("H1-trampolined-subscribe", "subscribe goes through the trampoline when required; schedule_required = idle()", floor=3)
     rep.rule("H2-cancellable-producer", "producers poll a dispose flag or re-schedule per element through the returned disposable", floor=5)
+    rep.rule("H6-fair-producer", "synchronous producers emit one element per scheduled step, yielding to the trampoline in between", floor=4)
     rep.rule("H3-early-terminal", "early terminators reach a terminal downstream call from their element / trigger path", floor=8)
     sub = repo.fn(OBS, "Observable.subscribe")
     sched = [s for s in sites(sub) if isinstance(s.node, ast.Call) and isinstance(s.node.func, ast.Attribute) and s.node.func.attr == "schedule"
@@ -115,6 +116,13 @@ def check(repo: Repo, rep: Report) -> None:
         how = "emit loop (poll rule applies)" if loops else "one element per scheduled step"
         rep.ob("H2-cancellable-producer", root, f"{root.qual}: {how}; every scheduled step held by the returned disposable", ok,
                f"{root.qual}: a scheduled emission step is not held by the returned disposable: dispose() cannot stop the producer")
+        # H6: a never-ending producer must yield to the trampoline between elements.  An early terminator that depends on
+        # *other* trampolined work (the inner sequences of flat_map / switch_map, the trigger of take_until) can only fire if
+        # that work gets to run; a producer that emits its whole iterable from inside one action starves it.
+        rep.ob("H6-fair-producer", root, f"{root.qual}: emits one element per scheduled step (yields to the trampoline)", not loops,
+               f"{root.qual} emits all its elements from a loop inside a single scheduled action: work that downstream operators put on "
+               f"the same trampoline (inner sequences of flat_map / switch_map, the trigger of take_until) never runs while an endless "
+               f"iterable is being drained, so the early terminator never fires and subscribe() does not return")
     # early terminators
     from ..engines.typestate import signature
     for key, (subk, slot) in EARLY.items():
